@@ -415,7 +415,7 @@ def classify_code_edit(cb, ca):
                         classes.add("end_name")
                         desc["name"] = names[0]
                         desc["tag"] = tag
-                        classes.add(("end_name_detail", names[0], tag))
+                        classes.add(("end_name_detail", names[0], tag, k if tag == "insert" else -1))
                     continue
         illegal.append(desc)
     if open_parens:
@@ -448,10 +448,25 @@ def check_rule_code_effect(rule_id, before, after):
     details = [c for c in classes if isinstance(c, tuple)]
     classes = {c for c in classes if not isinstance(c, tuple)}
     if not illegal and classes <= allowed:
-        # inserted end-names must not be invented: the name has to occur in the code before
-        for _, name, tag in details:
-            if tag == "insert" and name not in cb:
+        # inserted end-names must be the opener's own name/label (block tracker, self-validated on the
+        # text before the edit); where the tracker is unsure: the name must at least occur in the code
+        from lib import vblocks
+
+        for _, name, tag, end_idx in details:
+            if tag != "insert":
+                continue
+            if name not in cb:
                 return {"class": "invented-name", "name": name}
+            agree, disagree = vblocks.self_check(cb)
+            if disagree == 0 and end_idx >= 0:
+                for ei, kws, nm, _ in vblocks.ends(ca):
+                    if ei == end_idx:
+                        exp = vblocks.expected_name(ca, ei, kws)
+                        if exp == "":
+                            return {"class": "name-inserted-after-end-of-unlabelled-construct", "name": name}
+                        if exp is not None and exp != name:
+                            return {"class": "wrong-name-inserted-after-end", "name": name, "expected": exp}
+                        break
         return None
     if illegal:
         if "".join(cb) == "".join(ca):
